@@ -59,6 +59,37 @@ CHECKS = {
         "real monitors (up to 4-5 monitors, depth 8-10, canonical state = multiset of (priority, status)): HighestPriority == lowest number among "
         "activated unfinished monitors else -1; (iv) 5 concurrent drivers (2-3 workers, mixed priorities) under every schedule with <= 1-2 preemptions: "
         "no event is taken while a more urgent or older-equal event of its cascade is queued"),
+ "C17": dict(engine="engine-B", cat="exploration", ref="DESIGN.md 5, 7/C17", note="lexical containment as the property defines it (symbolic links are not followed by the reference normaliser); file-system calls of util/import.go are observed through a mechanical build-time redirection of ioutil.ReadFile/os.Open/os.Stat to recording wrappers; an error is always an admissible answer", tech="bounded exhaustive enumeration of inputs against an independent reference model (stack-based lexical path normaliser) plus observation of every file-system call",
+   text="FileImportLocator.Resolve for every path of <= 5 (thorough 6) segments over {a, sub, .., ., '', a.b, ..a, 'a b'} with optional leading and "
+        "trailing slash x 7 spellings of the root (absolute, trailing slash, relative, ./, '.', nested with .., empty) over a file tree with sentinel "
+        "files inside and outside the root (including a sibling directory whose name has the root as prefix): about 1.05 million cases quick; "
+        "the same verdict through the interpreter's import statement for paths of <= 3-4 segments. Oracle: whatever is returned is the content of a "
+        "file lexically inside the root, a lexically outside path yields an error, no path outside the root reaches a file-system call"),
+ "C18": dict(engine="engine-B", cat="exploration", ref="DESIGN.md 5, 7/C18", note="columns in bytes from 1; for comment tokens the reported position is that of the first content character; item sequences that do not lex into one token per item are skipped (counted)", tech="bounded exhaustive enumeration of token streams with generator-recorded offsets; line/column recomputed independently from the source text",
+   text="every sequence of <= 4 items (thorough also 5) over {identifier, number, :=, (, quoted strings incl. multi-byte, raw multi-line string, "
+        "# comments, /* */ comments incl. multi-line} x separators {space, LF, CRLF, tab, none}: every token's Pos/Lline/Lpos must equal the "
+        "recorded offset and the recomputed line/column (1.4 million cases quick); planted errors after every prefix of <= 3-4 filler "
+        "statements/comments: a stray ')' (parser.Error), `1 + \"a\"` (util.RuntimeError) must be reported at the recomputed line/column, "
+        "and statement separation must be unaffected by comments"),
+ "C19": dict(engine="engine-B", cat="exploration", ref="DESIGN.md 5, 7/C19", note="number conversion is compared only where Go defines it exactly (integral values inside the parameter type's range, |x| < 2^53); Bessel functions of order >= 2^31 are excluded as non-termination inside bridged Go code", tech="bounded exhaustive enumeration of function x argument-vector pairs with independently computed expected conversions",
+   text="26 synthetic Go functions (identity per numeric kind int..uint64/uintptr/float32/float64, string, bool, interface, slice, variadic, (T,error) "
+        "returning nil / non-nil, two results, no result, no arguments, panicking, nil-map write) and all 62 generated math.* adapters x every argument "
+        "vector of length 0-3 (thorough 0-4) over a 24-value universe (null, booleans, 0, +-1, +-3, fractions, 255/256, 2^31, 2^53, 1e300, strings, "
+        "lists, maps): no panic escapes, outcome is a value or a non-empty error, Go numbers arrive as float64, identity functions return "
+        "float64(K(x)), a trailing Go error arrives as the error, panicking Go functions yield errors; math.* also through ECAL source with the "
+        "same verdict and value"),
+ "C20": dict(engine="engine-B", cat="exploration", ref="DESIGN.md 5, 7/C20", note="the packed binary is started in-process through RunPackedBinary with the osArgs/osExit/osStderr/handleError package seams (overlay-added setter; the same variables the repository's pack tests use); the interpreter binary is represented by filler bytes", tech="exhaustive sweep over source-binary lengths modulo the scanner's buffer geometry x filler patterns x project trees, with an independent reading of the produced archive",
+   text="source binaries of every length in [0, 2 scan periods] (thorough 3; period = 4096 + len(marker) + 11) x 5 filler patterns (no '#', all '#', "
+        "'#' at block ends, partial markers straddling block boundaries, trailing newline) x 3 project trees (single file, nested directories with an "
+        "imported library, empty file + binary file containing the marker) packed with the real CLIPacker.Pack; oracle: archive at offset "
+        "L+len(marker) holds every file byte-identical (read independently with archive/zip), RunPackedBinary reaches the exit callback with the "
+        "entry file's value, imports see the packed library, never a panic or a fall-through to the normal command line"),
+ "C07": dict(engine="engine-B", cat="exploration", ref="DESIGN.md 5, 7/C07", note="a goroutine blocked on an abandoned channel is stable, so the goroutine count / dump after the call is not a timing oracle; evaluation of accepted trees is C06's corpus", tech="bounded exhaustive enumeration of token sequences, program mutations and byte strings, with the tree's own consumers (PrettyPrint, Validate) as shape oracle and a goroutine census for leaks",
+   text="all token sequences of length <= 3 over every keyword and symbol of the lexer plus identifier/number/string/newline (61 tokens) and of length 4 "
+        "over a 34-token subset (thorough: length 4 over all, 5 over the subset: 69 million parses); all single (thorough double) token deletions, "
+        "duplications, swaps and stray bracket insertions of a 15-program corpus; all byte strings of length <= 2 and of length 3-4 over 40 bytes incl. "
+        "NUL, ESC, DEL, invalid UTF-8. Oracle: terminates, exactly one of tree/error, errors positioned, no nil node, PrettyPrint and Validate do not "
+        "panic, no lexer goroutine left blocked"),
 }
 
 ENGINES = [
